@@ -2,6 +2,7 @@
    op 9: dst.clone_from(&src) (src = identities 0.., dst = identities 100..)
    case: [op; form; elem; N; pan; front; back; mode]
    elem: 0 Tr (x Tr), 1 u32 (x u32), 2 Tr x u32, 3 u32 x Tr (zip only), 4 Cn (Clone only), 5 zero-sized, 6 zero-sized with a counted destructor (generate / default only),
+         8 plain 12-byte elements (size <> alignment), 9 / 10 zips of plain arrays whose element sizes differ (2 x 4, 4 x 2 -> 12): as elem 1,
          7 Tr mapped to plain u32 (map only);
    mode (how the caller's code fails: own panic / destructor of an argument) does not change
    what the crate has to do *)
@@ -31,8 +32,11 @@ Definition run_forms (case : list Z) : list Z :=
   match case with
   | op :: form :: elem :: n :: pan :: front :: back :: _ =>
     let N := znat n in
-    let tracked := (elem =? 0) || (elem =? 2) || (elem =? 7) in         (* the (left / only) input is drop-tracked *)
-    let tracked_r := (elem =? 0) || (elem =? 3) in       (* zip: the right input is drop-tracked *)
+    (* elem 6 (zero-sized, drop-counted): the inputs are owned and released like tracked ones, but the caller's function
+       cannot report zero-sized arguments as handed over: the EMove events are not observable (filtered below) *)
+    let tracked := (elem =? 0) || (elem =? 2) || (elem =? 7) || (elem =? 6) in   (* the (left / only) input is drop-tracked *)
+    let tracked_r := (elem =? 0) || (elem =? 3) || (elem =? 6) in       (* zip: the right input is drop-tracked *)
+    let unmoved (e : list ev) := if elem =? 6 then filter (fun x => match x with EMove _ => false | _ => true end) e else e in
     let p := if pan <? 0 then None else Some (znat pan) in
     (* elem 5: zero-sized elements -- every identity reads 0 *)
     let zst := (elem =? 5) || (elem =? 6) in   (* 6: zero-sized AND drop-counted (the count is a direct oracle of the harness) *)
@@ -43,15 +47,15 @@ Definition run_forms (case : list Z) : list Z :=
       let '(o, e, calls) := map_ (tracked && ((form =? 0) || (form =? 3))) fresh_id p a in
       (* elem 7: drop-tracked inputs mapped to plain outputs -- the outputs (identities >= 1000) have no destructor *)
       let e := if elem =? 7 then filter (fun x => match x with EDrop i => i <? 1000 | _ => true end) e else e in
-      enc_outcome o ++ enc_tail calls e
+      enc_outcome o ++ enc_tail calls (unmoved e)
     else if op =? 1 then
       let ol := tracked && ((form =? 9) || (form / 3 =? 0)) in
       let or_ := tracked_r && ((form =? 9) || (form mod 3 =? 0)) in
       let '(o, e, calls) := zip_ ol or_ fresh_id p a b in
-      enc_outcome o ++ enc_tail calls e
+      enc_outcome o ++ enc_tail calls (unmoved e)
     else if op =? 2 then
       let '(o, e, calls) := fold_ (tracked && ((form =? 0) || (form =? 3))) fold_g p 5 a in
-      (match o with FoldOk acc => [0; 1; acc] | FoldPanic => [2; 0] end) ++ enc_tail (map (fun x => [x]) calls) e
+      (match o with FoldOk acc => [0; 1; acc] | FoldPanic => [2; 0] end) ++ enc_tail (map (fun x => [x]) calls) (unmoved e)
     else if op =? 3 then
       let '(o, e, calls) := generate_ N fresh_id p in
       enc_outcome o ++ enc_tail (index_calls calls) e
@@ -77,6 +81,6 @@ Definition run_forms (case : list Z) : list Z :=
           ++ enc_tail (map (fun x => [x]) (firstn ncalls (live s))) e ++ [1]
       else
         let '(o, e, calls) := if op =? 7 then iter_fold fold_g p 5 s else iter_rfold fold_g p 5 s in
-        (match o with FoldOk acc => [0; 1; acc] | FoldPanic => [2; 0] end) ++ enc_tail (map (fun x => [x]) calls) e
+        (match o with FoldOk acc => [0; 1; acc] | FoldPanic => [2; 0] end) ++ enc_tail (map (fun x => [x]) calls) (unmoved e)
   | _ => []
   end.
